@@ -962,6 +962,12 @@ impl PhysicalOperator for HashJoinExec {
                     }
                     build_batches.extend(batches);
                 }
+                // A build side that produced NO batches (a Parquet table with
+                // no row groups) still has a schema; without it the output of
+                // an outer join has no columns to NULL-extend with.
+                if build_batches.is_empty() {
+                    build_batches.push(RecordBatch::new_empty(build_side.schema()));
+                }
                 debug_log(&format!(
                     "Build side collected: {} batches, {} total rows, {} bytes",
                     build_batches.len(),
@@ -1298,6 +1304,13 @@ impl PhysicalOperator for HashJoinExec {
         } else {
             let probe_stream = probe_side.execute(partition).await?;
             probe_stream.try_collect().await?
+        };
+
+        // Same for a probe side that produced no batches at all.
+        let probe_batches = if probe_batches.is_empty() {
+            vec![RecordBatch::new_empty(probe_side.schema())]
+        } else {
+            probe_batches
         };
 
         // Safety check: prevent cross join explosions
